@@ -230,6 +230,7 @@ func natsLifecycle(rc *RunCtx) {
 		tr := frugal.NewFNatsTransport(nc, "svc", "_INBOX.lc")
 		open, dropped := false, false
 		down := false
+		closedDuringOutage := false
 		serverOp := func() {
 			if down {
 				rc.Fault("nats-server-back")
@@ -237,6 +238,12 @@ func natsLifecycle(rc *RunCtx) {
 				settle(200 * time.Millisecond) // several reconnect attempts later the client is connected again
 				down = false
 				opLog = append(opLog, "server-back")
+				if closedDuringOutage && !open {
+					closedDuringOutage = false
+					if tr.IsOpen() {
+						rc.Violate("C15", "isopen-inconsistent", "nats", fmt.Sprintf("Close() during an outage returned nil, and with the connection back IsOpen() is true again; ops %v", opLog))
+					}
+				}
 			} else {
 				rc.Fault("nats-server-down-client-reconnecting")
 				b.GoDown()
@@ -256,6 +263,18 @@ func natsLifecycle(rc *RunCtx) {
 			}
 			if down {
 				// while the client is between servers the transport is not usable and must say so
+				if open && tp.Intn("closedown", 4) == 3 {
+					// the application closes the transport during the outage: closed is closed, also once the
+					// connection is back
+					err := tr.Close()
+					opLog = append(opLog, fmt.Sprintf("close(down)->%v", err))
+					rc.Fault("nats-close-while-reconnecting")
+					if err == nil {
+						open = false
+						closedDuringOutage = true
+					}
+					continue
+				}
 				switch tp.Intn("ops", 3) {
 				case 0:
 					err := tr.Open()
